@@ -665,6 +665,41 @@ impl Mul<u128> for BigUint {
 //@ end
 }
 
+// ------------------------------------------------------------------ promoted scalars (promote_scalars!, src/macros.rs): u8 -> u32
+impl AddSpecImpl<u8> for BigUint {
+    open spec fn obeys_add_spec() -> bool { false }
+    open spec fn add_req(self, rhs: u8) -> bool { self.wf() }
+    open spec fn add_spec(self, rhs: u8) -> BigUint { arbitrary() }
+}
+impl Add<u8> for BigUint {
+    type Output = BigUint;
+//@ extract src/macros.rs :: macro_rules! promote_scalars :: arm 0 :: impl $imp<$scalar> for $res :: fn $method subst=$imp=>Add;$promo=>u32;$res=>BigUint;$method=>add;$scalar=>u8 props=C10,C01 label=add_u8
+    fn add(self, other: u8) -> /*+*/(r: /*-*/BigUint/*+*/)/*-*/
+//+{
+        ensures r.wf(), r.v() == self.v() + other as nat
+//+}
+    {
+        Add::add(self, other as u32)
+    }
+//@ end
+}
+impl AddAssignSpecImpl<u8> for BigUint {
+    open spec fn obeys_add_assign_spec() -> bool { false }
+    open spec fn add_assign_req(&self, rhs: u8) -> bool { self.wf() }
+    open spec fn add_assign_spec(&self, rhs: u8) -> &BigUint { arbitrary() }
+}
+impl AddAssign<u8> for BigUint {
+//@ extract src/macros.rs :: macro_rules! promote_scalars_assign :: arm 0 :: fn $method subst=$imp=>AddAssign;$promo=>u32;$res=>BigUint;$method=>add_assign;$scalar=>u8 props=C10,C01 label=add_assign_u8
+    fn add_assign(&mut self, other: u8)
+//+{
+        ensures final(self).wf(), final(self).v() == old(self).v() + other as nat
+//+}
+    {
+        self.add_assign(other as u32);
+    }
+//@ end
+}
+
 } // mod u
 } // verus!
 fn main() {}
